@@ -8,7 +8,7 @@ from .c09 import tup
 
 PID = "C13"
 META = {
-    "explanation": "Static analysis on the MIR of the current tree (default, all-features, release-like): the call-graph closure of Reader::new is computed over resolved callees; inside it there is no loop, no recursion, no block load, no explicit panic, no bounds check, every overflow assertion constant-folds without overflow, and every external callee is on a short allowlist of panic-free std/byteorder functions or is the user's own Read+Seek; the acceptance decision is decoded into a table — magic read as u32 LE at End(-4), exactly two accepted values, everything else InvalidFormatVersion; the record at End(-(size+4)) with read widths summing to size; codec id accepted iff from_u8 is Some (exactly 0..=5); every rejection exit is one of those or a propagated I/O error, and nothing else rejects; the trailer (magic last) is the last thing a writer emits. Fixtures prove the panic detectors fire. Behaviour of the user's Seek for out-of-range negative offsets is std's contract (Cursor/File return Err).",
+    "explanation": "Static analysis on the MIR of the current tree (default, all-features, release-like): the call-graph closure of Reader::new is computed over resolved callees; inside it there is no loop, no recursion, no block load, no explicit panic, no bounds check, every overflow assertion constant-folds without overflow, and every external callee is on a short allowlist of panic-free std/byteorder functions or is the user's own Read+Seek; the acceptance decision is decoded into a table — magic read as u32 LE at End(-4), exactly two accepted values, everything else InvalidFormatVersion; the record at End(-(size+4)) with read widths summing to size; codec id accepted iff from_u8 is Some (exactly 0..=5); every rejection exit is one of those or a propagated I/O error, and nothing else rejects; the trailer (magic last) is the last thing a writer emits. Fixtures prove the panic detectors fire. Behaviour of the user's Seek for out-of-range negative offsets is std's contract (Cursor/File return Err). On the producing side: the sink adapter writes everything and counts what was accepted, and a writer reporting success has flushed the sink (shared with C11 / C12).",
     "assumptions": ["Seek::seek(SeekFrom::End(-n)) fails when n exceeds the length (std Cursor / File)", "byteorder read_* panics never (uses read_exact)"],
 }
 
@@ -27,6 +27,13 @@ def run(ck):
         ck.guard("C13-R1", r1_panic_free, ck, F)
         ck.guard("C13-R3", r3_accept_table, ck, F)
         ck.guard("C13-R4", r4_trailer_last, ck, F)
+        from . import shared
+        # a writer that reports success has handed every byte, trailer included, to the sink and flushed it
+        from .c11 import r1_write_all, r2_count_accepted
+        from .c12 import r6_flush
+        ck.guard("C13-R4", r1_write_all, ck, F, "C13-R4")
+        ck.guard("C13-R4", r2_count_accepted, ck, F, "C13-R4")
+        ck.guard("C13-R4", r6_flush, ck, F)
     from . import fixtures
     ck.guard("C13-R1", fixtures.run, ck, "C13")
     ck.trusted += ["rustc MIR construction", "std Seek semantics for negative end-relative offsets", "byteorder"]
